@@ -77,7 +77,59 @@ def _gen_call(r, op, T, calm):
             "angle_limit": R.choice_w(r, [("default", 3), (round(r.uniform(0.5 * math.pi, math.pi), 4), 1)])}
 
 
+P_METHOD = [None, "lsq_linear", "lsq"]
+P_B = [None, "velocity"]
+P_FIT = ["default", "taubinSVD"]
+P_ANGLE = ["default", "inf", 2.5]
+P_VARIANT = ["rebuild", "no-rebuild", "other-frame-between"]
+P_OPTS = [(m, b, f, a) for m in P_METHOD for b in P_B for f in P_FIT for a in P_ANGLE]
+PAIRS_SIZE = len(P_OPTS) * len(P_OPTS) * len(P_VARIANT)
+
+
+def gen_pairs_trace(seed, tier):
+    """Systematic part of the search: every ordered pair (X, Y) of option sets
+    (method x b_matrix x circle fit x angle limit), solved one after the other on the same frame
+    of a seeded two-frame series, with and without a rebuild, with and without another frame in
+    between, each solve followed by the pressure step."""
+    base, idx = divmod(seed, 1_000_000)
+    g = idx // 4
+    series_no, cell = divmod(g * 37 % PAIRS_SIZE + (g // PAIRS_SIZE) * PAIRS_SIZE, PAIRS_SIZE)
+    var = P_VARIANT[cell % len(P_VARIANT)]
+    xi, yi = divmod(cell // len(P_VARIANT), len(P_OPTS))
+    r_in = R.stream(base * 1_000_000 + series_no, "pairs-input")
+    spec = TS.random_spec(r_in, max_side=3, kmax=4, for_solver=True, frames=2)
+    sess = {"spec": spec, "frames": 2, "times": [0.0, 1.5], "path": "direct", "cm": False, "gt": True}
+
+    def build(o, when):
+        return {"op": "build_force_matrix", "when": when, "angle_limit": o[3], "fit": o[2], "ignore_four": None,
+                "sess": 0, "thread": 0}
+
+    def solve(o, when):
+        st = {"op": "solve_stress", "when": when, "method": o[0], "b_matrix": o[1], "allow_negatives": None,
+              "adimensional_velocity": None, "velocity_normalization": None, "sess": 0, "thread": 0}
+        if o[0] == "lsq":
+            st.update({"initial_condition": "none", "use_std": None, "icseed": 0})
+        return st
+
+    def press(when):
+        return [{"op": "build_pressure_matrix", "when": when, "sess": 0, "thread": 0},
+                {"op": "solve_pressure", "when": when, "method": "lagrange_pressure", "allow_negatives": None,
+                 "sess": 0, "thread": 0}]
+
+    X, Y = P_OPTS[xi], P_OPTS[yi]
+    steps = [build(X, 0), solve(X, 0)] + press(0)
+    if var == "other-frame-between":
+        steps += [build(X, 1), solve(X, 1)] + press(1)
+    if var != "no-rebuild":
+        steps.append(build(Y, 0))
+    steps += [solve(Y, 0)] + press(0)
+    return {"kind": "solver", "prop": "C10", "config": "pairs", "seed": seed, "threads": 1, "sessions": [sess],
+            "steps": steps, "grid": {"series": series_no, "first": list(X), "then": list(Y), "variant": var}}
+
+
 def gen_trace(seed, config, tier):
+    if config == "pairs":
+        return gen_pairs_trace(seed, tier)
     r_in = R.stream(seed, "input")
     r_op = R.stream(seed, "ops")
     r_f = R.stream(seed, "faults")
